@@ -273,7 +273,8 @@ impl Engine for KpSim {
             simulated_components: &["argv, cwd, env", "input files and stdin contents", "read boundaries, EINTR, EIO, premature EOF inside kp (H2 reader seam)", "file-level faults (absent, directory, dangling symlink, invalid UTF-8)"],
             assumptions: &[
                 "kp is single threaded, so (Plan, binary) -> (stdout, stderr class, exit status) is a function",
-                "without -d/-D kp guesses decimals and dimension per internal batch; the model then accepts 5 or 10 decimals and any column count from the line's own up to 4 (the property leaves this open)",
+                "without -d/-D the number of decimals and columns is kp's own estimate: the model then accepts any number of decimals (the same for all columns of a line) and one to four columns",
+                "whether invalid UTF-8 in the input is an error or is decoded leniently is left open; lines printed for the input before it are asserted either way",
                 "values printed for lines with more than four columns are not asserted (one output line, no crash)",
                 "with --roundtrip and tuples that fail in one direction kp may end with an error (count mismatch) instead of printing; the exit status is then not asserted, printed lines always are",
             ],
@@ -577,6 +578,7 @@ impl Engine for KpSim {
         let n_parts = plan.parts.len();
         let only_stdin_implicit = n_parts == 1 && plan.parts[0].kind == PartKind::Stdin && plan.lines.len() % 2 == 0;
         let mut stdin_seen = false;
+        let mut saw_invalid_utf8 = false;
         let mut fifo_writers: Vec<(PathBuf, std::thread::JoinHandle<()>)> = Vec::new();
         for (k, part) in plan.parts.iter().enumerate() {
             let end = (next_line + part.lines).min(plan.lines.len());
@@ -698,6 +700,7 @@ impl Engine for KpSim {
                             let line_start = seen[..pos].iter().rposition(|b| *b == b'\n').map_or(0, |p| p + 1);
                             seen.truncate(line_start);
                             fault_here = Some("utf8");
+                            saw_invalid_utf8 = true;
                             rec.probe("invalid_utf8");
                         } else if fault_here == Some("eio") {
                             // the partial line before the error is never delivered
@@ -961,6 +964,11 @@ impl Engine for KpSim {
         // between the two directions); when it prints, every line is still asserted
         let check_values = true;
         // exit status
+        // Whether text that is not valid UTF-8 makes a file "unreadable" is left open:
+        // kp may stop with an error or decode leniently and carry on. Either way the
+        // lines printed for the input before the invalid bytes must be right.
+        let hard_fault = if hard_fault == Some("utf8") && code == Some(0) { None } else { hard_fault };
+        let lenient_utf8 = saw_invalid_utf8;
         match hard_fault {
             Some(what) => {
                 if code == Some(0) {
@@ -995,7 +1003,7 @@ impl Engine for KpSim {
                     );
                     return;
                 }
-                if code == Some(0) && out_lines.len() != n_coord {
+                if code == Some(0) && out_lines.len() != n_coord && !(lenient_utf8 && out_lines.len() >= n_coord) {
                     rec.violate(
                         "I-lines",
                         "number of output lines differs from the number of coordinate lines",
@@ -1024,13 +1032,14 @@ impl Engine for KpSim {
                 };
                 let ok = {
                     let cols = &got[..];
+                    // without -D / -d the number of columns and decimals is kp's own estimate
                     let dims_ok = match plan.dimension {
                         Some(d) => cols.len() == d as usize,
-                        None => cols.len() >= exp.own_dims.min(4) && cols.len() <= 4,
+                        None => !cols.is_empty() && cols.len() <= 4,
                     };
                     let decs: Vec<usize> = match plan.decimals {
                         Some(d) => vec![d as usize],
-                        None => vec![5, 10],
+                        None => (0..=17).collect(),
                     };
                     dims_ok && decs.iter().any(|d| cols.iter().enumerate().all(|(k, c)| same_number(c, &format!("{:.*}", *d, result[k]))))
                 };
